@@ -36,7 +36,7 @@ def plan(tier, seed):
 
 def sparse_cfg(rng):
     return common.rich_cfg(
-        rng, langs=rng.choice([[L1, L2], ["en", "fr", "de"], [L1], ["x", "y"]]), p_translated=rng.choice([0.5, 0.8, 1.0]),
+        rng, langs=rng.choice([[L1, L2], ["en", "fr", "de"], [L1], ["x", "y"], ["English", "english"], ["fr", "FR", "Fr (fr)"], ["Deutsch (de)", "deutsch (de)"]]), p_translated=rng.choice([0.5, 0.8, 1.0]),
         p_sparse=rng.choice([0.2, 0.5, 0.7]), unsuffixed_too=rng.choice([0.0, 0.4, 0.8]),
         p_guidance=0.4, p_media=0.4, p_hint=0.5, p_constraint=0.5, p_constraint_msg=0.8, p_required=0.4, p_required_msg=0.8,
         p_select=0.4, p_or_other=rng.choice([0, 0.3]), p_choice_media=rng.choice([0, 0.4]), p_choice_nolabel=rng.choice([0, 0, 0.15]),
